@@ -136,7 +136,7 @@ func main() {
 	nshards, _ := strconv.Atoi(os.Args[4])
 	n := 0
 	mine := func() bool { n++; return n%nshards == shard }
-	instants := []int64{1, 59, 86399, 1000000000, 1<<31 - 1, 1 << 31, 4102444800, 253402300799}
+	instants := []int64{0, 1, 59, 86399, 1000000000, 1<<31 - 1, 1 << 31, 4102444800, 253402300799}
 	names := []string{"A", "Al Bo", "Al  Bo", "é ü", "O'N", "a>b", "x@y", strings.Repeat("N", 200)}
 	emails := []string{"a@b.co", "a.b+c-d_e@x-y.z9.org", "A9@a1.b2.info"}
 	messages := []string{"", "m", "a: b", "l1\nl2", "l1\n\nl3", "\nlead", "trail\n", "é", strings.Repeat("x", 4096), "tree deadbeef", "author x", "l1\nparent " + strings.Repeat("0", 40), "100% of %s %d", "l1\ntree " + strings.Repeat("ab", 20) + "\nauthor A <a@b.co> 1 +0000"}
